@@ -212,6 +212,67 @@ def substitute(t, mapping):
     return t
 
 
+def single_pass(run, prog, classes, rule):
+    """A parameter that a method walks more than once (a loop after a validation pass, two comprehensions) must be
+    something that can be walked twice: with a generator, a map object or any other one-shot iterable the second walk
+    finds nothing, and the method returns normally having absorbed none of the values."""
+    CONSUMERS = {"list", "tuple", "set", "frozenset", "sorted", "sum", "min", "max", "any", "all", "dict", "enumerate", "zip",
+                 "map", "filter", "iter", "np.fromiter", "numpy.fromiter", "np.array", "numpy.array", "np.asarray",
+                 "numpy.asarray", "np.sum", "np.mean", "numpy.sum", "numpy.mean", "np.isfinite", "np.all", "np.any"}
+    n = 0
+    for cls in classes:
+        for k in prog.mro(cls):
+            for mname, fn in k.methods.items():
+                if prog.find_method(cls, mname)[1] is not fn or not fn.args.args:
+                    continue
+                params = [a.arg for a in fn.args.args[1:] + fn.args.kwonlyargs]
+                for p in params:
+                    if any(isinstance(x, ast.Name) and x.id == p and isinstance(x.ctx, ast.Store) for x in ast.walk(fn)):
+                        continue                # rebound (e.g. materialised with list(...)) before use
+                    walks = []
+                    for x in ast.walk(fn):
+                        if isinstance(x, (ast.For, ast.comprehension)) and isinstance(x.iter, ast.Name) and x.iter.id == p:
+                            walks.append(getattr(x, "lineno", getattr(x.iter, "lineno", fn.lineno)))
+                        elif isinstance(x, ast.Call) and ast.unparse(x.func) in CONSUMERS and \
+                                any(isinstance(a, ast.Name) and a.id == p for a in x.args):
+                            walks.append(x.lineno)
+                    ann = next((a.annotation for a in fn.args.args + fn.args.kwonlyargs if a.arg == p), None)
+                    one_shot_ok = ann is not None and any(w in ast.unparse(ann) for w in ("Iterable", "Iterator", "Generator"))
+                    if len(walks) >= 2 and one_shot_ok:
+                        n += 1
+                        run.fail(rule, f"{cls.name}.{mname}.single-pass", f"{k.module.path}:{sorted(walks)[1]}", f"{k.name}.{mname}",
+                                 f"`{p}` walked at lines {sorted(walks)}",
+                                 f"{k.name}.{mname} walks its argument `{p}` (declared {ast.unparse(ann)}) {len(walks)} times: a "
+                                 f"generator or any other one-shot iterable is used up by the first walk, so the later one sees "
+                                 f"nothing -- the call returns normally and none of the values has been absorbed")
+    if not n:
+        run.ok(rule, "single-pass", "no method walks an iterable argument twice")
+
+
+def numeric_mode(run, prog, rule):
+    """No module of the package changes the process-wide floating-point error handling: under NumPy's defaults an
+    underflow or an intermediate overflow of a NumPy scalar yields 0 / inf silently; after `np.seterr(all="raise")`
+    (or under="raise") the same finite, legal stream makes the unchanged tracker arithmetic raise FloatingPointError."""
+    hits = []
+    for m in prog.modules.values():
+        for n in ast.walk(m.tree):
+            if isinstance(n, ast.Call):
+                d = prog.dotted_of(m, n.func) if isinstance(n.func, (ast.Attribute, ast.Name)) else None
+                if d is None and isinstance(n.func, ast.Name):
+                    r = prog.resolve_name(m, n.func.id)
+                    d = r[1] if r and r[0] == "ext" else None
+                if d in ("numpy.seterr", "numpy.seterrcall", "numpy.seterrobj"):
+                    hits.append((m, n, d))
+    for m, n, d in hits:
+        run.fail(rule, f"numeric-mode:{m.name}", f"{m.path}:{n.lineno}", m.name, f"{d}({', '.join(ast.unparse(a) for a in n.args)}"
+                 f"{', ' if n.args and n.keywords else ''}{', '.join(k.arg + '=' + ast.unparse(k.value) for k in n.keywords if k.arg)})",
+                 f"{d} changes the floating-point error handling of the whole process: with NumPy-scalar inputs a harmless "
+                 f"underflow (an exponentially smoothed value decaying towards 0, a tiny squared deviation) then raises "
+                 f"FloatingPointError inside the unchanged tracker code, for finite legal streams")
+    if not hits:
+        run.ok(rule, "numeric-mode", "no module changes NumPy's process-wide error handling")
+
+
 def welford_roles(prog, W):
     """Which fields of the Welford tracker play the three parts, found from what the code does with them and not from
     their names: {"N": update counter, "tracked_value": running mean, "sum_squares": second-moment accumulator}.
